@@ -347,3 +347,44 @@ impl Inputs for Point {
         self.x.unsigned_abs() <= 1 || (self.x as i64 * self.x as i64 + self.y as i64 * self.y as i64 - 10_000).abs() <= 300
     }
 }
+
+impl Inputs for crate::types::CowF {
+    fn systematic(_m: &Model<Self>, tier: Tier) -> Vec<Self> {
+        use std::borrow::Cow;
+        let alpha = [f32::NAN, -0.0, 0.0, 1.0, -1.5, 7.0, 50.5, f32::INFINITY, -1e30];
+        let maxl = if tier == Tier::Thorough { 4 } else { 3 };
+        let mut out: Vec<Self> = vec![Cow::Owned(vec![])];
+        let mut frontier: Vec<Vec<f32>> = vec![vec![]];
+        for _ in 0..maxl {
+            let mut next = vec![];
+            for s in &frontier {
+                for a in alpha {
+                    let mut t = s.clone();
+                    t.push(a);
+                    next.push(t);
+                }
+            }
+            out.extend(next.iter().cloned().map(Cow::Owned));
+            frontier = next;
+        }
+        // borrowed forms
+        static B0: [f32; 0] = [];
+        static B1: [f32; 3] = [3.0, -1.0, 2.0];
+        static B2: [f32; 2] = [f32::NAN, 1.0];
+        static B3: [f32; 5] = [5.0, 4.0, 3.0, 2.0, 1.0];
+        out.extend([Cow::Borrowed(&B0[..]), Cow::Borrowed(&B1[..]), Cow::Borrowed(&B2[..]), Cow::Borrowed(&B3[..])]);
+        out
+    }
+    fn strategy(_m: &Model<Self>) -> BoxedStrategy<Self> {
+        let elem = prop_oneof![
+            any::<u32>().prop_map(f32::from_bits),
+            (-60i32..60).prop_map(|x| x as f32 / 2.0),
+            Just(f32::NAN),
+            Just(-0.0f32),
+        ];
+        proptest::collection::vec(elem, 0..8).prop_map(std::borrow::Cow::Owned).boxed()
+    }
+    fn near_bound(&self, _m: &Model<Self>) -> bool {
+        (2..=4).contains(&self.len()) || self.is_empty() || self.iter().any(|x| x.is_nan())
+    }
+}
